@@ -2544,6 +2544,78 @@ fn monitor_update_battery(_a: &mut Vec<i128>) -> String {
 	format!("{} {}", bad, total)
 }
 
+/// own_csv_probe <delay node 0 imposes on node 1> <delay node 1 imposes on node 0>
+/// Two live nodes with those `our_to_self_delay`s and one channel with a little traffic; node 0's own commitment
+/// transaction confirms. Output: `<delay by which node 0's monitor announces its delayed balance> <to_self_delay of the
+/// DelayedPaymentOutput descriptor it hands out when that height is reached, 0 if none>` - both must be the delay
+/// node 1 chose.
+fn own_csv_probe(a: &mut Vec<i128>) -> String {
+	use lightning::chain::channelmonitor::Balance;
+	use lightning::events::Event;
+	use lightning::sign::SpendableOutputDescriptor;
+	let (d0, d1) = (a[0] as u16, a[1] as u16);
+	let chanmon_cfgs = create_chanmon_cfgs(2);
+	let node_cfgs = create_node_cfgs(2, &chanmon_cfgs);
+	let mut c0 = test_default_channel_config();
+	c0.channel_handshake_config.our_to_self_delay = d0;
+	let mut c1 = test_default_channel_config();
+	c1.channel_handshake_config.our_to_self_delay = d1;
+	let node_chanmgrs = create_node_chanmgrs(2, &node_cfgs, &[Some(c0), Some(c1)]);
+	let nodes = create_network(2, &node_cfgs, &node_chanmgrs);
+	let chan = create_announced_chan_between_nodes(&nodes, 0, 1);
+	let chan_id = chan.2;
+	send_payment(&nodes[0], &[&nodes[1]], 10_000_000);
+	let commitment = {
+		let mon = nodes[0].chain_monitor.chain_monitor.get_monitor(chan_id).unwrap();
+		mon.unsafe_get_latest_holder_commitment_txn(&nodes[0].logger)[0].clone()
+	};
+	mine_transaction(&nodes[0], &commitment);
+	let conf = nodes[0].best_block_info().1;
+	let mut mature = 0u32;
+	for b in nodes[0].chain_monitor.chain_monitor.get_monitor(chan_id).unwrap().get_claimable_balances() {
+		if let Balance::ClaimableAwaitingConfirmations { confirmation_height, .. } = b {
+			mature = confirmation_height;
+		}
+	}
+	if mature == 0 {
+		core::mem::forget(nodes);
+		return "0 0".to_string();
+	}
+	let announced = mature + 1 - conf;
+	connect_blocks(&nodes[0], mature - conf);
+	let mut desc_delay = 0u16;
+	for ev in nodes[0].chain_monitor.chain_monitor.get_and_clear_pending_events() {
+		if let Event::SpendableOutputs { outputs, .. } = ev {
+			for o in outputs {
+				if let SpendableOutputDescriptor::DelayedPaymentOutput(d) = o {
+					desc_delay = d.to_self_delay;
+				}
+			}
+		}
+	}
+	core::mem::forget(nodes);
+	format!("{} {}", announced, desc_delay)
+}
+
+/// own_csv_battery: own_csv_probe over four pairs of delays (three asymmetric). Output: `<bad> <total>`.
+fn own_csv_battery(_a: &mut Vec<i128>) -> String {
+	let (mut bad, mut total) = (0u32, 0u32);
+	for (d0, d1) in [(150i128, 200i128), (200, 150), (144, 1000), (300, 300)] {
+		total += 1;
+		let want = format!("{} {}", d1, d1);
+		match catch_unwind(AssertUnwindSafe(|| own_csv_probe(&mut vec![d0, d1]))) {
+			Ok(v) if v == want => {},
+			other => {
+				bad += 1;
+				if std::env::var("ORACLE_DEBUG").is_ok() {
+					eprintln!("own_csv_battery: {} {}: {:?} (wanted {})", d0, d1, other.ok(), want);
+				}
+			},
+		}
+	}
+	format!("{} {}", bad, total)
+}
+
 fn main() {
 	if std::env::var("ORACLE_DEBUG").is_err() { std::panic::set_hook(Box::new(|_| {})); }
 	let stdin = std::io::stdin();
@@ -2559,6 +2631,8 @@ fn main() {
 		let mut args: Vec<i128> = it.map(|x| x.parse::<i128>().expect("bad int")).collect();
 		let r = catch_unwind(AssertUnwindSafe(|| match name.as_str() {
 			"forward_probe" => forward_probe(&mut args),
+			"own_csv_probe" => own_csv_probe(&mut args),
+			"own_csv_battery" => own_csv_battery(&mut args),
 			"persister_probe" => persister_probe(&mut args),
 			"monitor_update_probe" => monitor_update_probe(&mut args),
 			"monitor_update_battery" => monitor_update_battery(&mut args),
